@@ -124,7 +124,56 @@ def delta_phases():
     raise ValueError('Delta.__add__ not found')
 
 
-GENERATORS = [safe_to_import, find_class_shape, types_to_dist_func, delta_phases]
+def _diff_class():
+    t = ast.parse(_src('diff.py'))
+    for node in t.body:
+        if isinstance(node, ast.ClassDef) and node.name == 'DeepDiff':
+            return t, node
+    raise ValueError('class DeepDiff not found')
+
+
+def deephash_forwarding():
+    """the option names DeepDiff hands to DeepHash: DEEPHASH_PARAM_KEYS plus the keys _get_deephash_params sets itself"""
+    t, cls = _diff_class()
+    keys = None
+    for node in t.body:
+        if isinstance(node, ast.Assign) and any(isinstance(x, ast.Name) and x.id == 'DEEPHASH_PARAM_KEYS' for x in node.targets):
+            keys = list(ast.literal_eval(node.value))
+    if keys is None:
+        raise ValueError('DEEPHASH_PARAM_KEYS not found')
+    extra = []
+    for fn in cls.body:
+        if isinstance(fn, ast.FunctionDef) and fn.name == '_get_deephash_params':
+            for st in ast.walk(fn):
+                if isinstance(st, ast.Assign) and len(st.targets) == 1 and isinstance(st.targets[0], ast.Subscript) \
+                        and isinstance(st.targets[0].value, ast.Name) and st.targets[0].value.id == 'result' and isinstance(st.targets[0].slice, ast.Constant):
+                    extra.append(st.targets[0].slice.value)
+    return ['/-- the parameters `DeepDiff` passes on to `DeepHash` (`DEEPHASH_PARAM_KEYS` and what `_get_deephash_params` adds) -/',
+            'def deephashForwarded : List String := ' + lean_list([lean_str(k) for k in keys + extra]), '']
+
+
+def memo_shape():
+    """the memoisation in _get_rough_distance_of_hashed_objs, normalised: which cache calls it makes, in order"""
+    t, cls = _diff_class()
+    for fn in cls.body:
+        if isinstance(fn, ast.FunctionDef) and fn.name == '_get_rough_distance_of_hashed_objs':
+            events = []
+            for st in ast.walk(fn):
+                if isinstance(st, ast.Compare) and any(isinstance(o, ast.In) for o in st.ops) and 'self._distance_cache' in ast.unparse(st):
+                    events.append((st.lineno, st.col_offset, 'contains'))
+                if isinstance(st, ast.Call) and isinstance(st.func, ast.Attribute) and ast.unparse(st.func.value) == 'self._distance_cache':
+                    events.append((st.lineno, st.col_offset, st.func.attr))
+                if isinstance(st, ast.Call) and ast.unparse(st.func) == 'DeepDiff':
+                    events.append((st.lineno, st.col_offset, 'compute'))
+            events.sort()
+            guards = [ast.unparse(st.test) for st in ast.walk(fn) if isinstance(st, ast.If)]
+            return ['/-- `_get_rough_distance_of_hashed_objs`: the cache operations and the computation, in source order, and the `if` guards -/',
+                    'def memoEvents : List String := ' + lean_list([lean_str(e[2]) for e in events]),
+                    'def memoGuards : List String := ' + lean_list([lean_str(g) for g in guards]), '']
+    raise ValueError('_get_rough_distance_of_hashed_objs not found')
+
+
+GENERATORS = [safe_to_import, find_class_shape, types_to_dist_func, delta_phases, deephash_forwarding, memo_shape]
 
 
 def generate():
